@@ -6,6 +6,7 @@ import (
 	"go/constant"
 	"go/token"
 	"go/types"
+	"golang.org/x/tools/go/packages"
 	"sort"
 	"strings"
 
@@ -84,6 +85,10 @@ func runC15(c *Ctx) {
 				want := types.ExprString(se.X) + "." + mu.Name()
 				held := normHeld(fc.heldAt(se), accessIsWrite(b.Body, se))
 				key := fmt.Sprintf("%s|access:%s", funcKey(p, b.Decl), fv.Name())
+				if !held[want] && handedOverWithItsLock(p, b.Body, se, want) {
+					c.ok("C15.R1", key, c.pos(se.Pos()), "handed, together with "+want+", to a helper that takes that lock before it touches the map")
+					return true
+				}
 				c.check(held[want], "C15.R1", key, c.pos(se.Pos()), "under "+want,
 					fmt.Sprintf("%s accesses %s without holding %s %s: concurrent workers race on the map", funcKey(p, b.Decl), fv.Name(), want, heldList(held)))
 				return false
@@ -159,6 +164,7 @@ func runC15(c *Ctx) {
 				}
 			}
 		}
+		pathDerivationPkg = p
 		derivedFromRoot := func(e ast.Expr) (bool, string) { return pathDerivation(info, fd, e, roots, 0) }
 		ast.Inspect(fd.Body, func(n ast.Node) bool {
 			call, ok := n.(*ast.CallExpr)
@@ -214,88 +220,117 @@ func runC15(c *Ctx) {
 	if gen == nil {
 		c.viol("C15.R3", "anchor-lost:FSEventHandler.generate", "", "the per-file generate method was not found")
 	} else {
-		key := funcKey(p, gen)
-		// formatted := format.Source(buf.Bytes()); buf passed to generator.Generate
-		var fmtCall, genCall, writerCall, hashCall *ast.CallExpr
-		ast.Inspect(gen.Body, func(n ast.Node) bool {
-			if call, ok := n.(*ast.CallExpr); ok {
-				if fn := calleeOf(info, call); fn != nil {
-					switch fullName(fn) {
-					case "go/format.Source":
-						fmtCall = call
-					case pkgGenerator + ".Generate":
-						genCall = call
-					case "crypto/sha256.Sum256":
-						if hashCall == nil {
-							hashCall = call
-						}
-					}
-				}
-				if se, ok := call.Fun.(*ast.SelectorExpr); ok && isFileWriterField(info, se) {
-					writerCall = call
-				}
+		// the unit: the function that calls the generator, and — when generation is a phase of its own that hands its
+		// outcome on — the function of the package that calls it and writes the file
+		unit := []*ast.FuncDecl{gen}
+		for _, fd := range allFuncDecls(p) {
+			if fd == gen || fd.Body == nil {
+				continue
 			}
-			return true
-		})
-		// the hash-then-write step may live in a package-local helper that receives the bytes as a parameter and both
-		// hashes and writes that parameter
-		helperContentIdx := -1
-		if writerCall == nil || hashCall == nil {
-			ast.Inspect(gen.Body, func(n ast.Node) bool {
-				call, ok := n.(*ast.CallExpr)
-				if !ok || helperContentIdx >= 0 {
-					return true
+			calls := false
+			ast.Inspect(fd.Body, func(n ast.Node) bool {
+				if call, ok := n.(*ast.CallExpr); ok && types.Object(calleeOf(info, call)) == info.Defs[gen.Name] {
+					calls = true
 				}
-				fn := calleeOf(info, call)
-				if fn == nil || fn.Pkg() != p.Types {
-					return true
-				}
-				for _, hfd := range allFuncDecls(p) {
-					if info.Defs[hfd.Name] != types.Object(fn) || hfd.Body == nil {
-						continue
-					}
-					var prms []types.Object
-					for _, prm := range hfd.Type.Params.List {
-						for _, nm := range prm.Names {
-							prms = append(prms, info.Defs[nm])
+				return true
+			})
+			if calls {
+				unit = append(unit, fd)
+			}
+		}
+		writerFn := gen
+		key := funcKey(p, gen)
+		type sited struct {
+			fd   *ast.FuncDecl
+			call *ast.CallExpr
+		}
+		var fmtCall, genCall *ast.CallExpr
+		var writerCalls, hashCalls []sited
+		for _, ufd := range unit {
+			ast.Inspect(ufd.Body, func(n ast.Node) bool {
+				if call, ok := n.(*ast.CallExpr); ok {
+					if fn := calleeOf(info, call); fn != nil {
+						switch fullName(fn) {
+						case "go/format.Source":
+							fmtCall = call
+						case pkgGenerator + ".Generate":
+							genCall = call
+						case "crypto/sha256.Sum256":
+							hashCalls = append(hashCalls, sited{ufd, call})
 						}
 					}
-					hashed, written := -1, -1
-					ast.Inspect(hfd.Body, func(m ast.Node) bool {
-						hc, ok := m.(*ast.CallExpr)
-						if !ok {
-							return true
-						}
-						argIdx := func(e ast.Expr) int {
-							if id, ok := ast.Unparen(e).(*ast.Ident); ok {
-								for i, po := range prms {
-									if po == info.ObjectOf(id) {
-										return i
-									}
-								}
-							}
-							return -1
-						}
-						if hf := calleeOf(info, hc); hf != nil && fullName(hf) == "crypto/sha256.Sum256" && len(hc.Args) == 1 {
-							hashed = argIdx(hc.Args[0])
-						}
-						if isWriterValue(hc) && len(hc.Args) == 2 {
-							written = argIdx(hc.Args[1])
-						}
-						return true
-					})
-					if hashed >= 0 && hashed == written && hashed < len(call.Args) {
-						helperContentIdx = hashed
-						writerCall, hashCall = call, call
+					if se, ok := call.Fun.(*ast.SelectorExpr); ok && isFileWriterField(info, se) {
+						writerCalls = append(writerCalls, sited{ufd, call})
+						writerFn = ufd
 					}
 				}
 				return true
 			})
 		}
-		if fmtCall == nil || genCall == nil || writerCall == nil || hashCall == nil {
-			c.viol("C15.R3", key+"|pipeline", c.pos(gen.Pos()), fmt.Sprintf("generate/format/hash/write pipeline incomplete (Generate %v, format.Source %v, Sum256 %v, writer %v)", genCall != nil, fmtCall != nil, hashCall != nil, writerCall != nil))
+		if writerFn != gen {
+			key = funcKey(p, writerFn)
+		}
+		// the hash-then-write step may live in a package-local helper that receives the bytes as a parameter and both
+		// hashes and writes that parameter
+		helperContentIdx := -1
+		var helperCall sited
+		if len(writerCalls) == 0 || len(hashCalls) == 0 {
+			for _, ufd := range unit {
+				ast.Inspect(ufd.Body, func(n ast.Node) bool {
+					call, ok := n.(*ast.CallExpr)
+					if !ok || helperContentIdx >= 0 {
+						return true
+					}
+					fn := calleeOf(info, call)
+					if fn == nil || fn.Pkg() != p.Types {
+						return true
+					}
+					for _, hfd := range allFuncDecls(p) {
+						if info.Defs[hfd.Name] != types.Object(fn) || hfd.Body == nil {
+							continue
+						}
+						var prms []types.Object
+						for _, prm := range hfd.Type.Params.List {
+							for _, nm := range prm.Names {
+								prms = append(prms, info.Defs[nm])
+							}
+						}
+						hashed, written := -1, -1
+						ast.Inspect(hfd.Body, func(m ast.Node) bool {
+							hc, ok := m.(*ast.CallExpr)
+							if !ok {
+								return true
+							}
+							argIdx := func(e ast.Expr) int {
+								if id, ok := ast.Unparen(e).(*ast.Ident); ok {
+									for i, po := range prms {
+										if po == info.ObjectOf(id) {
+											return i
+										}
+									}
+								}
+								return -1
+							}
+							if hf := calleeOf(info, hc); hf != nil && fullName(hf) == "crypto/sha256.Sum256" && len(hc.Args) == 1 {
+								hashed = argIdx(hc.Args[0])
+							}
+							if isWriterValue(hc) && len(hc.Args) == 2 {
+								written = argIdx(hc.Args[1])
+							}
+							return true
+						})
+						if hashed >= 0 && hashed == written && hashed < len(call.Args) {
+							helperContentIdx = hashed
+							helperCall = sited{ufd, call}
+						}
+					}
+					return true
+				})
+			}
+		}
+		if fmtCall == nil || genCall == nil || (len(writerCalls) == 0 || len(hashCalls) == 0) && helperContentIdx < 0 {
+			c.viol("C15.R3", key+"|pipeline", c.pos(gen.Pos()), fmt.Sprintf("generate/format/hash/write pipeline incomplete (Generate %v, format.Source %v, Sum256 %v, writer %v)", genCall != nil, fmtCall != nil, len(hashCalls) > 0, len(writerCalls) > 0))
 		} else {
-			formatted := assignedObject(info, gen.Body, fmtCall)
 			bufSame := false
 			if len(genCall.Args) >= 2 && len(fmtCall.Args) == 1 {
 				gb := strings.TrimPrefix(types.ExprString(genCall.Args[1]), "&")
@@ -304,40 +339,58 @@ func runC15(c *Ctx) {
 			}
 			c.check(bufSame, "C15.R3", key+"|formats-generator-output", c.pos(fmtCall.Pos()), "format.Source is applied to the buffer the generator wrote",
 				"format.Source is not applied to the bytes the generator produced")
+			// the Go file's writer is handed what format.Source returned (through locals or the fields of the outcome
+			// struct of the generation phase); so is the hash that gates that write. (Other writers of the unit — the
+			// development text file's — and their hashes are C16's.)
 			wArg, hArg := false, false
+			wPos, hPos := fmtCall.Pos(), fmtCall.Pos()
 			if helperContentIdx >= 0 {
-				if id, ok := writerCall.Args[helperContentIdx].(*ast.Ident); ok && formatted != nil && info.ObjectOf(id) == formatted {
+				if resolvesToCall(p, helperCall.fd, helperCall.call.Args[helperContentIdx], fmtCall, 0, 0) {
 					wArg, hArg = true, true
 				}
+				wPos, hPos = helperCall.call.Pos(), helperCall.call.Pos()
 			} else {
-				if len(writerCall.Args) == 2 {
-					if id, ok := writerCall.Args[1].(*ast.Ident); ok && formatted != nil && info.ObjectOf(id) == formatted {
+				for _, w := range writerCalls {
+					wPos = w.call.Pos()
+					if len(w.call.Args) == 2 && resolvesToCall(p, w.fd, w.call.Args[1], fmtCall, 0, 0) {
 						wArg = true
+						break
 					}
 				}
-				if id, ok := hashCall.Args[0].(*ast.Ident); ok && formatted != nil && info.ObjectOf(id) == formatted {
-					hArg = true
+				for _, h := range hashCalls {
+					hPos = h.call.Pos()
+					if len(h.call.Args) == 1 && resolvesToCall(p, h.fd, h.call.Args[0], fmtCall, 0, 0) {
+						hArg = true
+						break
+					}
 				}
 			}
-			c.check(wArg, "C15.R3", key+"|writes-formatted-bytes", c.pos(writerCall.Pos()), "the file writer receives the gofmt-formatted bytes",
+			c.check(wArg, "C15.R3", key+"|writes-formatted-bytes", c.pos(wPos), "the file writer receives the gofmt-formatted bytes",
 				"the bytes handed to the file writer are not the result of format.Source: the written file differs from the gofmt-formatted generation")
-			c.check(hArg, "C15.R3", key+"|hashes-what-it-writes", c.pos(hashCall.Pos()), "the change-detection hash is computed over the bytes that are written",
+			c.check(hArg, "C15.R3", key+"|hashes-what-it-writes", c.pos(hPos), "the change-detection hash is computed over the bytes that are written",
 				"the hash that gates the write is not computed over the bytes that are written")
 			writesGatedByOwnHash(c, "C15.R3", "write-gated-by-own-hash")
 		}
+		key = funcKey(p, gen)
 		// R4 in generate: errors of the deciding calls reach a return
 		deciding := map[string]bool{pkgParser + ".Parse": true, pkgGenerator + ".Generate": true, "go/format.Source": true, "os.WriteFile": true}
-		for _, st := range gen.Body.List {
-			checkErrFlow(c, p.TypesInfo, gen, st, gen.Body.List, deciding, "C15.R4", key)
-		}
-		ast.Inspect(gen.Body, func(n ast.Node) bool {
-			if is, ok := n.(*ast.IfStmt); ok {
-				for _, st := range is.Body.List {
-					checkErrFlow(c, p.TypesInfo, gen, st, is.Body.List, deciding, "C15.R4", key)
-				}
+		for _, ufd := range unit {
+			ukey := key
+			if ufd != gen {
+				ukey = funcKey(p, ufd)
 			}
-			return true
-		})
+			for _, st := range ufd.Body.List {
+				checkErrFlow(c, p.TypesInfo, ufd, st, ufd.Body.List, deciding, "C15.R4", ukey)
+			}
+			ast.Inspect(ufd.Body, func(n ast.Node) bool {
+				if is, ok := n.(*ast.IfStmt); ok {
+					for _, st := range is.Body.List {
+						checkErrFlow(c, p.TypesInfo, ufd, st, is.Body.List, deciding, "C15.R4", ukey)
+					}
+				}
+				return true
+			})
+		}
 	}
 
 	// R4: HandleEvent returns generate's error; Run forwards and counts ------------------------------
@@ -480,7 +533,18 @@ func runC15(c *Ctx) {
 			return true
 		})
 		for _, st := range run.Body.List {
-			if is, ok := st.(*ast.IfStmt); ok && counter != "" && strings.HasPrefix(types.ExprString(is.Cond), counter+".Load() > 0") {
+			is, ok := st.(*ast.IfStmt)
+			if !ok || counter == "" {
+				continue
+			}
+			// the condition `<counter>.Load() > 0`, the load possibly held in a local of the if statement (n := c.Load(); n > 0)
+			cond := types.ExprString(is.Cond)
+			if as, isAs := is.Init.(*ast.AssignStmt); isAs && len(as.Lhs) == 1 && len(as.Rhs) == 1 {
+				if be, isBE := ast.Unparen(is.Cond).(*ast.BinaryExpr); isBE && types.ExprString(be.X) == types.ExprString(as.Lhs[0]) {
+					cond = types.ExprString(as.Rhs[0]) + " " + be.Op.String() + " " + types.ExprString(be.Y)
+				}
+			}
+			if strings.HasPrefix(cond, counter+".Load() > 0") {
 				if ret, ok := is.Body.List[len(is.Body.List)-1].(*ast.ReturnStmt); ok && len(ret.Results) == 1 && types.ExprString(ret.Results[0]) != "nil" {
 					final = true
 				}
@@ -577,7 +641,27 @@ func runC15(c *Ctx) {
 			}
 			nwalk++
 			key := funcKey(wp, fd) + "|walk-skips-directories"
-			fl, ok := call.Args[len(call.Args)-1].(*ast.FuncLit)
+			// the callback: a function literal, or a declared function / method value of the package
+			var fl *ast.FuncLit
+			switch a := ast.Unparen(call.Args[len(call.Args)-1]).(type) {
+			case *ast.FuncLit:
+				fl = a
+			case *ast.Ident, *ast.SelectorExpr:
+				var fobj types.Object
+				if id, isID := a.(*ast.Ident); isID {
+					fobj = wp.TypesInfo.Uses[id]
+				} else {
+					fobj = wp.TypesInfo.Uses[a.(*ast.SelectorExpr).Sel]
+				}
+				if _, isFn := fobj.(*types.Func); isFn {
+					for _, cfd := range allFuncDecls(wp) {
+						if wp.TypesInfo.Defs[cfd.Name] == fobj && cfd.Body != nil {
+							fl = &ast.FuncLit{Type: cfd.Type, Body: cfd.Body}
+						}
+					}
+				}
+			}
+			ok = fl != nil
 			good := false
 			earlyWhy := ""
 			if ok {
@@ -746,6 +830,9 @@ func boolAtomsRaw(e ast.Expr) []ast.Expr {
 
 // pathDerivation: e is the root file name, or TrimSuffix(root, const)+const, or GetDevModeTextFileName(root),
 // possibly through single-assignment locals.
+// pathDerivationPkg: the package whose private struct fields pathDerivation may follow (set by the rule that uses it).
+var pathDerivationPkg *packages.Package
+
 func pathDerivation(info *types.Info, fd *ast.FuncDecl, e ast.Expr, roots map[types.Object]bool, depth int) (bool, string) {
 	e = ast.Unparen(e)
 	if depth > 4 {
@@ -784,6 +871,35 @@ func pathDerivation(info *types.Info, fd *ast.FuncDecl, e ast.Expr, roots map[ty
 	case *ast.SelectorExpr:
 		if id, ok := x.X.(*ast.Ident); ok && roots[info.ObjectOf(id)] && x.Sel.Name == "Name" {
 			return true, types.ExprString(x)
+		}
+		// an unexported field of a result struct of the package (the outcome of an earlier phase): every value the
+		// package stores into it must derive, in the function that stores it, from that function's file-name roots
+		if pathDerivationPkg != nil {
+			if f := privateField(pathDerivationPkg, x); f != nil {
+				stores := fieldStoresOf(pathDerivationPkg, f)
+				how := ""
+				for _, st := range stores {
+					if st.Res != 0 {
+						return false, types.ExprString(x) + " is a further result of " + types.ExprString(st.Rhs)
+					}
+					r2 := map[types.Object]bool{}
+					for _, prm := range st.Fn.Type.Params.List {
+						for _, nm := range prm.Names {
+							if t := info.TypeOf(prm.Type); t != nil && (isStringType(t) || strings.HasSuffix(t.String(), "fsnotify.Event")) {
+								r2[info.Defs[nm]] = true
+							}
+						}
+					}
+					ok, h := pathDerivation(info, st.Fn, st.Rhs, r2, depth+1)
+					if !ok {
+						return false, types.ExprString(x) + " = " + types.ExprString(st.Rhs) + " in " + st.Fn.Name.Name + " (" + h + ")"
+					}
+					how = types.ExprString(x) + " = " + types.ExprString(st.Rhs) + " in " + st.Fn.Name.Name
+				}
+				if len(stores) > 0 {
+					return true, how
+				}
+			}
 		}
 	case *ast.BinaryExpr:
 		if x.Op == token.ADD {
@@ -1369,4 +1485,75 @@ func isFileWriterField(info *types.Info, se *ast.SelectorExpr) bool {
 		return false
 	}
 	return isStringType(sig.Params().At(0).Type()) && sig.Params().At(1).Type().String() == "[]byte" && sig.Results().At(0).Type().String() == "error"
+}
+
+// handedOverWithItsLock: the guarded map se is an argument of a call of a package-local function that is also given
+// the map's mutex, and that function holds the mutex parameter at every use of the map parameter.
+func handedOverWithItsLock(p *packages.Package, body *ast.BlockStmt, se *ast.SelectorExpr, want string) bool {
+	info := p.TypesInfo
+	ok := false
+	ast.Inspect(body, func(n ast.Node) bool {
+		call, isCall := n.(*ast.CallExpr)
+		if !isCall {
+			return true
+		}
+		mi, li := -1, -1
+		for i, a := range call.Args {
+			if ast.Unparen(a) == ast.Expr(se) {
+				mi = i
+			}
+			if t := types.ExprString(ast.Unparen(a)); t == want || t == "&"+want {
+				li = i
+			}
+		}
+		if mi < 0 || li < 0 {
+			return true
+		}
+		fn := calleeOf(info, call)
+		if fn == nil || fn.Pkg() != p.Types {
+			return true
+		}
+		for _, hfd := range allFuncDecls(p) {
+			if info.Defs[hfd.Name] != types.Object(fn.Origin()) || hfd.Body == nil {
+				continue
+			}
+			var prms []*ast.Ident
+			for _, prm := range hfd.Type.Params.List {
+				prms = append(prms, prm.Names...)
+			}
+			if mi >= len(prms) || li >= len(prms) {
+				continue
+			}
+			mapObj, muName := info.Defs[prms[mi]], prms[li].Name
+			hfc := newFnCFG(hfd.Body, info)
+			uses, all := 0, true
+			directNodes(hfd.Body, func(m ast.Node) bool {
+				if id, isID := m.(*ast.Ident); isID && info.Uses[id] == mapObj {
+					uses++
+					if !normHeld(hfc.heldAt(id), true)[muName] {
+						all = false
+					}
+				}
+				return true
+			})
+			// a function literal in the helper could run later, outside the lock: the map must not be used in one
+			inLit := false
+			ast.Inspect(hfd.Body, func(m ast.Node) bool {
+				if fl, isLit := m.(*ast.FuncLit); isLit {
+					ast.Inspect(fl.Body, func(k ast.Node) bool {
+						if id, isID := k.(*ast.Ident); isID && info.Uses[id] == mapObj {
+							inLit = true
+						}
+						return true
+					})
+				}
+				return true
+			})
+			if uses > 0 && all && !inLit {
+				ok = true
+			}
+		}
+		return true
+	})
+	return ok
 }
